@@ -4,8 +4,10 @@ package checks
 // Timed lanes (see c12_test.go for the timing discipline).
 
 import (
+	"context"
 	"fmt"
 	"github.com/DrmagicE/gmqtt"
+	"github.com/DrmagicE/gmqtt/server"
 	"strings"
 	"sync"
 	"testing"
@@ -31,7 +33,8 @@ type c08Lane struct {
 	Subscribe bool   `json:"subscribe"` // the client also had a subscription (irrelevant, exercises session state)
 	// DiscExpiryS > 0 (ending disc4, session expiry non-zero at CONNECT): the DISCONNECT carries this new Session
 	// Expiry Interval; "session end or delay, whichever comes first" is then decided by the NEW interval
-	DiscExpiryS int `json:"disconnect_expiry_s,omitempty"`
+	DiscExpiryS int  `json:"disconnect_expiry_s,omitempty"`
+	TKClean     bool `json:"takeover_clean,omitempty"` // ending disc0_takeover: Clean Start of the connection that takes over
 }
 
 type c08Scen struct {
@@ -55,7 +58,7 @@ func genC08(t *rapid.T) c08Scen {
 				l.ExpiryS = 3600
 			}
 		}
-		ends := []string{"disc0", "close", "close", "malformed", "keepalive", "takeover_clean", "takeover_resume", "server_close", "terminate"}
+		ends := []string{"disc0", "close", "close", "malformed", "keepalive", "takeover_clean", "takeover_resume", "server_close", "terminate", "disc0_takeover"}
 		if l.V == 5 {
 			ends = append(ends, "disc4", "disc4", "disc4")
 		}
@@ -73,6 +76,9 @@ func genC08(t *rapid.T) c08Scen {
 			}
 		}
 		switch l.Ending {
+		case "disc0_takeover":
+			l.After = "none"
+			l.TKClean = rapid.Bool().Draw(t, "tkclean")
 		case "takeover_clean", "takeover_resume", "terminate":
 			l.After = "none"
 		default:
@@ -105,7 +111,13 @@ func runC08(s c08Scen, c *ev.Case) *ev.Violation {
 		return bv
 	}
 	defer cleanupBackend()
-	b, err := fixture.Start(fixture.Opts{Config: cfg})
+	hooks := &server.Hooks{OnMsgArrived: func(ctx context.Context, cl server.Client, req *server.MsgArrivedRequest) error {
+		if req.Message != nil && strings.HasPrefix(req.Message.Topic, "slow/") {
+			time.Sleep(60 * time.Millisecond) // a slow user hook: the packets behind this PUBLISH wait in the broker
+		}
+		return nil
+	}}
+	b, err := fixture.Start(fixture.Opts{Config: cfg, Hooks: hooks})
 	if err != nil {
 		return harnessErr("start broker: %v", err)
 	}
@@ -188,6 +200,30 @@ func runC08(s c08Scen, c *ev.Case) *ev.Violation {
 			_ = cl.Send(&mw.Packet{Type: mw.DISCONNECT})
 			cl.Kill()
 			suppress = true
+		case "disc0_takeover":
+			// DISCONNECT 0x00 waits in the broker behind a PUBLISH that a slow hook is holding; once the broker has
+			// read it (its statistics say so) a second connection takes the client id over. The DISCONNECT was
+			// received: no will, whatever ends the connection first.
+			_ = cl.Send(&mw.Packet{Type: mw.PUBLISH, Topic: "slow/" + id, Payload: []byte("x")})
+			_ = cl.Send(&mw.Packet{Type: mw.DISCONNECT})
+			read := fixture.PollUntilEvery(time.Millisecond, 2*time.Second, func() bool {
+				st, ok := b.Srv.StatsManager().GetClientStats(id)
+				return ok && st.PacketStats.ReceivedTotal.Disconnect >= 1
+			})
+			if !read {
+				o.inconclusive = true
+				cl.Kill()
+				return o
+			}
+			c2, ack, err := connect(l.TKClean, false)
+			if err != nil || ack == nil || ack.ReasonCode != 0 {
+				return fail(ev.Violf("C08.takeover", "second CONNECT failed: %v %v", ack, err))
+			}
+			cl2 = c2
+			defer cl2.Kill()
+			cl.Kill()
+			suppress = true
+			o.labels = append(o.labels, "disconnect_received_then_taken_over")
 		case "disc4":
 			dp := &mw.Packet{Type: mw.DISCONNECT, ReasonCode: 0x04}
 			if l.DiscExpiryS > 0 {
